@@ -273,6 +273,13 @@ func (vc *VC) convertNum(x string, from, to types.Type) string {
 		return vc.wrapFull(x, ti.bits, ti.signed)
 	}
 	// bv mode
+	if lit, ok := parseIntLit(x); ok && strings.HasPrefix(x, "(_ bv") {
+		// constant folding: the value of the literal (read in the source type) reduced to the target width
+		if fi.signed && lit.Cmp(pow2(fi.bits-1)) >= 0 {
+			lit = new(big.Int).Sub(lit, pow2(fi.bits))
+		}
+		return fmt.Sprintf("(_ bv%s %d)", new(big.Int).Mod(lit, pow2(ti.bits)).String(), ti.bits)
+	}
 	switch {
 	case ti.bits == fi.bits:
 		return x
